@@ -81,3 +81,7 @@ M("c05-native-cancel-replacement-tests-carried-exception", "C05", A, "TaskGroup.
 M("c05-native-after-anyio-dropped", "C05", A, "TaskGroup.__aexit__",
   "                                if exc_val is None or (\n                                    isinstance(exc_val, CancelledError)\n                                    and not is_anyio_cancellation(exc)\n                                ):",
   "                                if exc_val is None or (\n                                    isinstance(exc_val, CancelledError)\n                                    and not is_anyio_cancellation(exc_val)\n                                    and not is_anyio_cancellation(exc)\n                                ):", ["R05-h"])
+
+# from seeded change C05/k (round 6): a deadline assigned to a scope that is not entered arms a timer nobody cancels
+M("c05-setter-arms-inactive-scope", "C05", A, "CancelScope.deadline@setter",
+  "        if self._active and not self._cancel_called:", "        if not self._cancel_called:", ["R05-c"])
